@@ -67,12 +67,27 @@ def search_full_multi(chk, cells):
         chk.search_case("full_run_repeated_points", ok, what=f"{cell[0]}_{cell[1]} {cell[2]} {cell[3]} {cell[4]} NfFF={cell[5]} PTO={cell[6]} TMC={cell[7]} with a point listed twice: {out}", data=dict(cell=cell, outcome=out), sample=dict(cell=cell, outcome=out) if cell[6] == 1 else None)
 
 
+def search_request_shapes(chk):
+    """request shapes outside the lattice: observables named by their kind alone, and grids ending
+    below 1 with a requested x above the last node (with and without target-mass corrections)"""
+    reqs = [(k, pr, pj, tmc, True, 1.0, 0.3) for k, pr, pj in (("F2", "NC", "electron"), ("FL", "EM", "electron"), ("F3", "CC", "neutrino"), ("g1", "NC", "electron"), ("XSHERANC", "NC", "electron"), ("F1", "NC", "positron")) for tmc in (0, 1)]
+    reqs += [(k, pr, pj, tmc, False, 0.8, x) for k, pr, pj in (("F2", "NC", "electron"), ("FL", "EM", "electron"), ("F3", "CC", "neutrino"), ("XSHERANC", "NC", "electron")) for tmc in (0, 1, 2, 3) for x in (0.9, 0.5)]
+    res = lattice.run_parallel(lattice.full_variant, reqs)
+    for rq, out in zip(reqs, res):
+        kind, pr, pj, tmc, short, top, x = rq
+        ok = out == "ok" or out.startswith("rejected")
+        d = dict(observable=kind if short else f"{kind}_total", process=pr, projectile=pj, TMC=tmc, grid_top=top, x=x, outcome=out)
+        chk.search_case("request_shapes_outcome", ok, what=f"{d['observable']} {pr} {pj} TMC={tmc} grid up to {top} x={x}: {out}", data=d, sample=d if tmc == 1 and short and kind == "F2" else None)
+
+
 def search_kinematics(chk, r):
     """points outside 0 < x <= 1, Q2 > 0, or below the grid must be rejected on every path"""
     import yadism
 
     grid = [float(v) for v in np.geomspace(1e-2, 1.0, 8)]
-    bad_points = [dict(x=0.0, Q2=10.0), dict(x=-0.1, Q2=10.0), dict(x=1.0000001, Q2=10.0), dict(x=1.05, Q2=2.0), dict(x=0.5, Q2=0.0), dict(x=0.5, Q2=-3.0), dict(x=0.005, Q2=10.0), dict(x=float(np.nextafter(1e-2, 0)), Q2=10.0)]
+    bad_points = [dict(x=0.0, Q2=10.0), dict(x=-0.1, Q2=10.0), dict(x=1.0000001, Q2=10.0), dict(x=1.05, Q2=2.0), dict(x=0.5, Q2=0.0), dict(x=0.5, Q2=-3.0), dict(x=0.005, Q2=10.0), dict(x=float(np.nextafter(1e-2, 0)), Q2=10.0),
+                  # not-a-number and infinite kinematics are outside 0 < x <= 1, 0 < Q2 < oo as well
+                  dict(x=float("nan"), Q2=10.0), dict(x=0.5, Q2=float("nan")), dict(x=0.5, Q2=float("inf")), dict(x=float("inf"), Q2=10.0)]
     good_points = [dict(x=1.0, Q2=10.0), dict(x=1e-2, Q2=10.0)]
     paths = [("F2_total", 0, "NC"), ("F2_total", 1, "NC"), ("FL_light", 2, "NC"), ("F3_total", 3, "CC"), ("XSHERANC_total", 0, "NC"), ("XSHERACC_total", 1, "CC"), ("F1_light", 0, "NC"), ("g1_total", 1, "NC"),
              ("XSFPFCC_total", 0, "CC"), ("XSCHORUSCC_total", 0, "CC"), ("XSNUTEVCC_light", 0, "CC"), ("XSNUTEVNU_total", 0, "CC"), ("FW_total", 0, "CC"), ("XSHERANCAVG_total", 0, "NC"), ("g5_total", 0, "NC")]
@@ -91,7 +106,8 @@ def search_kinematics(chk, r):
             expect_reject = pt in bad_points
             # with TMC a legal point whose xi falls below the grid is also (explicitly) rejected
             ok = out.startswith("rejected") if expect_reject else (out == "ok" or (tmc and out.startswith("rejected")))
-            chk.search_case("kinematic_domain", ok, what=f"{name} TMC={tmc}: point {pt} -> {out}", data=dict(obs=name, TMC=tmc, point=pt, outcome=out), sample=dict(obs=name, TMC=tmc, point=pt, outcome=out) if tmc == 1 and pt["x"] == 1.05 else None)
+            ptj = {k_: (v_ if np.isfinite(v_) else str(v_)) for k_, v_ in pt.items()}  # strict JSON has no NaN / Infinity
+            chk.search_case("kinematic_domain", ok, what=f"{name} TMC={tmc}: point {pt} -> {out}", data=dict(obs=name, TMC=tmc, point=ptj, outcome=out), sample=dict(obs=name, TMC=tmc, point=ptj, outcome=out) if tmc == 1 and pt["x"] == 1.05 else None)
 
 
 def run(tier):
@@ -127,6 +143,7 @@ def run(tier):
     cheap_multi = [c for c in cheap if c[6] <= 1]
     search_full_multi(chk, multi + r.sample(cheap_multi, min(len(cheap_multi), 60 if thorough else 8)))
     search_kinematics(chk, r)
+    search_request_shapes(chk)
     chk.assumptions += [
         "no_internal_error is proved for every environment of the Combiner model (any nf, mass flags, weights, Q2) against class/module tables read from the live code each run; the model<->code tie is the dispatch_outcome correspondence (outcome class of the real code, without quadrature, on a sample / the whole lattice)",
         "finiteness of the numbers is observed on real runs (incl. massive N3LO where the shipped grids give NaN, zeroed by replace_nans_with_0), not proved",
